@@ -273,15 +273,18 @@ class StateTriggerDecorator(TriggerDecorator, ExpressionDecorator, AutoKwargsDec
                     notify_type, notify_info = await asyncio.wait_for(self.notify_q.get(), effective_timeout)
                 if notify_type != "state":
                     raise RuntimeError(f"Invalid notify_type {notify_type}, {self}")
-                self.last_new_vars = notify_info[0]
-                self.last_func_args = notify_info[1]
+                new_vars, func_args = notify_info
 
-                if ident_any_values_changed(self.last_func_args, self.state_trig_ident_any):
+                if ident_any_values_changed(func_args, self.state_trig_ident_any):
+                    self.last_new_vars, self.last_func_args = new_vars, func_args
                     trig_ok = True
-                elif ident_values_changed(self.last_func_args, self.state_trig_ident):
+                elif ident_values_changed(func_args, self.state_trig_ident):
+                    self.last_new_vars, self.last_func_args = new_vars, func_args
                     trig_ok = await self._is_trig_ok()
                 else:
-                    trig_ok = False
+                    # no watched value changed (e.g. attribute-only update of a value-watched
+                    # entity): nothing is evaluated, so pending hold timers are left alone
+                    continue
                 await self._check_new_state(trig_ok)
             except TimeoutError:
                 await self._check_state_hold()
